@@ -122,3 +122,21 @@ def c_empty_implicit_first_document(case, detail):
         return False
     r = ev[2]
     return r[0] == 'SCALAR' and r[1] is None and r[4] == '' and not r[5] and bool(r[3][0])
+
+
+def c12_c_empty_implicit_first_document(case, detail):
+    """C12 form of the libyaml empty-implicit-first-document flaw: LibYAML dumper, not canonical, the first document is
+    implicit without directives and its root is an unanchored empty plain scalar whose tag is elided"""
+    o = case.get('options') or {}
+    if case.get('dumper') != 'c' or o.get('canonical'):
+        return False
+    docs = case.get('docs') or []
+    if not docs:
+        return False
+    first = docs[0]
+    if case.get('level') == 'events':
+        first = tuple(first)
+        return first[0] == 0 and first[1] in (0, 2) and first[2] == 0
+    if case.get('level') == 'nodes':
+        return first == 0 and not (o.get('explicit_start') or o.get('version') or o.get('tags'))
+    return False
